@@ -177,9 +177,10 @@ class CirqSimulator(Backend):
 
                 # Update counts if n_shots are required
                 if self.n_shots is None:
-                    frequencies = self._statevector_to_frequencies(self._current_state)
-                    for meas, val in frequencies.items():
+                    final_frequencies = self._statevector_to_frequencies(self._current_state)
+                    for meas, val in final_frequencies.items():
                         self.all_frequencies[measurements + meas] = val
+                    frequencies = self.all_frequencies
 
                 # Obtain full dictionary of frequencies from the final statevector.
                 else:
